@@ -89,9 +89,9 @@ def judge(chk, records_path, wd, label, shard=1500, par=14, xmx="3g"):
             raise vlib.ToolError("TraceCodec failed on %s:\n%s" % (p, (r.error_text or r.out)[-2500:]))
         chk.cov["states"] += r.distinct
         chk.cov["transitions"] += r.generated
-        for m in re.finditer(r'<<"FLAGS", (\d+), \{(.*?)\}>>', r.out):
+        for m in re.finditer(r'^<<"FLAGS", (\d+), (".*")>>$', r.out, re.M):
             i = int(m.group(1))
-            flags = set(x.strip().strip('"') for x in m.group(2).split(",") if x.strip())
+            flags = set(json.loads(json.loads(m.group(2))))
             flagged.append((json.loads(lines[k + i - 1]), flags))
         os.remove(p)
     return flagged, len(lines)
